@@ -9,7 +9,10 @@ The driver (cxx/ref_driver.cpp) wires, with the tree's standard operators,
 
 and runs it under the simulation executor.  Case lines
 
-  1 start end shape op        shape 0 TS<Int>, 1 TSS<Int>, 2 TSD<Int,TS<Int>>;  op 0 if_then_else, 1 if_cmp,
+  1 start end shape op [prod]  prod = 1: the targets A, B, C are the three fields of ONE producer node's bundle output,
+                              selected individually through getattr_ (identity of a target = (node, path));
+                              0 / absent: outputs of separate source nodes.
+                              shape 0 TS<Int>, 1 TSS<Int>, 2 TSD<Int,TS<Int>>;  op 0 if_then_else, 1 if_cmp,
                               3 if_then_else with the consumers INSIDE a nested graph (nested_<>): the dereferenced value
                                 crosses the boundary inwards; the nested graph evaluates all its nodes in its first cycle,
                               5 as 3 but the REFERENCE itself crosses the boundary (Port<REF<S>>) and is dereferenced inside:
@@ -19,6 +22,8 @@ and runs it under the simulation executor.  Case lines
                               6 CHAINED: if_then_else(c2, if_then_else(c1, A, B), C)   (c1 = source 0, c2 = source 4),
                               7 CHAINED: if_cmp(cmp2, if_then_else(c1, A, B), C, C)    (cmp2 = source 4: <=0 LT picks the
                                 inner selection, 1 EQ and >=2 GT both pick C),
+                              8 list[key]: ONE producer node with a TSL<S,3> output and stdlib getitem_ with a TICKING key
+                                (source 0: <=0 -> element 0, 1 -> 1, >=2 -> 2); the targets are elements of one output,
                               4 if_then_else INSIDE a nested graph whose dereferenced result is exported: ORACLE-ONLY
                                 (not mirrored by the model, see agree(); finding KF-C13-nested-export-lag)
   2 k t payload...            source k ticks at t.  k=0 selector (one integer: if_then_else true iff != 0;
@@ -143,8 +148,8 @@ def build_case(shape, op, cycles, start=1, rng=None, gap=None):
 
 # ---------------------------------------------------------------- named timing patterns
 def scenarios(shape, op):
-    T = 1 if op != 1 else 0      # selector value designating A
-    F = 0 if op != 1 else 1      # ... B
+    T = 1 if op not in (1, 8) else 0      # selector value designating A
+    F = 0 if op not in (1, 8) else 1      # ... B
     G = 2                        # ... C (if_cmp only)
     S = []
     cy = lambda sel=None, ticks=(), poke=False: {"sel": sel, "ticks": set(ticks), "poke": poke}
@@ -167,7 +172,7 @@ def scenarios(shape, op):
     S.append([cy(T, [A, B]), cy(F, [A]), cy(T, [A, B]), cy(F, [A, B])])
     # targets tick before any selection
     S.append([cy(ticks=[A]), cy(ticks=[B]), cy(poke=True), cy(T), cy(F)])
-    if op == 1:
+    if op in (1, 8):
         S.append([cy(T, [A, B, C]), cy(G), cy(F), cy(G, [A]), cy(G, [C]), cy(T)])
         S.append([cy(G), cy(ticks=[A, B]), cy(F), cy(ticks=[C]), cy(G)])
     return S
@@ -228,8 +233,21 @@ def gen_chained(rng, tier, shape, op):
 
 
 def gen(rng, tier, prop):
+    """every selection shape, with the targets either outputs of separate source nodes or (sixth header field 1,
+    ~45 %) the fields of ONE producer node's bundle output; op 8 (list[key]) always has sibling targets"""
+    case = _gen(rng, tier, prop)
+    if rng.random() < 0.45:
+        case[0] = case[0][:5] + [1]
+    return case
+
+
+def with_prod(case):
+    return [case[0][:5] + [1]] + case[1:]
+
+
+def _gen(rng, tier, prop):
     shape = rng.choice([0, 0, 1, 1, 2, 2])
-    op = rng.choice([0] * 8 + [1] * 3 + [3] * 3 + [5] * 2 + [6] * 3 + [7] * 2 + [4])
+    op = rng.choice([0] * 8 + [1] * 3 + [3] * 3 + [5] * 2 + [6] * 3 + [7] * 2 + [8] * 3 + [4])
     if op in (6, 7):
         return gen_chained(rng, tier, shape, op)
     r = rng.random()
@@ -238,8 +256,8 @@ def gen(rng, tier, prop):
         return build_case(shape, op, sc, start=rng.randint(1, 3), rng=rng if rng.random() < 0.5 else None,
                           gap=(lambda i: rng.choice([1, 1, 2, 3])))
     n = rng.randint(3, 9 if tier == "quick" else 14)
-    targets = [A, B] if op != 1 else [A, B, C]
-    sel_vals = [0, 1] if op != 1 else [0, 1, 2]
+    targets = [A, B] if op not in (1, 8) else [A, B, C]
+    sel_vals = [0, 1] if op not in (1, 8) else [0, 1, 2]
     p_sel = rng.choice([0.25, 0.4, 0.6])
     p_tick = rng.choice([0.2, 0.35, 0.5])
     p_poke = rng.choice([0.0, 0.15, 0.3])
@@ -254,9 +272,9 @@ def gen(rng, tier, prop):
                 sel = last                                      # same value again
             else:
                 sel = rng.choice(sel_vals)
-            if op != 1 and sel == 1 and rng.random() < 0.1:
+            if op not in (1, 8) and sel == 1 and rng.random() < 0.1:
                 sel = rng.choice([2, -1, 7])                    # any non-zero is true
-            if op == 1 and rng.random() < 0.08:
+            if op in (1, 8) and rng.random() < 0.08:
                 sel = rng.choice([-3, 5])                       # <=0 LT, >=2 GT
             last = sel
         tk = set(k for k in targets if rng.random() < p_tick and not (late and k == late_t and i < n // 2))
@@ -331,6 +349,27 @@ def enumerate_cases(prop):
             for sc in scenarios(shape, op):
                 yield build_case(shape, op, sc)
                 yield build_case(shape, op, sc, start=2, gap=lambda i: 2)
+    # targets that are SUB-OUTPUTS OF ONE NODE (fields of one bundle output): every pattern of <= 5 events (TS),
+    # <= 4 (TSS, TSD); all scenarios of every selection shape; list[key] (op 8): every pattern of <= 5 (TS), <= 4 (TSS)
+    for pat in _patterns(5):
+        if pat:
+            yield with_prod(build_case(0, 0, pat))
+            yield build_case(0, 8, pat)
+    for shape in (1, 2):
+        for pat in _patterns(4):
+            if pat:
+                yield with_prod(build_case(shape, 0, pat))
+                if shape == 1:
+                    yield build_case(shape, 8, pat)
+    for shape in (0, 1, 2):
+        for op in (0, 1, 3, 5, 8):
+            for sc in scenarios(shape, op):
+                yield with_prod(build_case(shape, op, sc))
+        for op in (6, 7):
+            for sc in chained_scenarios(op):
+                yield with_prod(build_case(shape, op, sc))
+    for pat in _chained_patterns(3):
+        yield with_prod(build_case(0, 6, [{"ticks": {A, B, C}}] + pat))
     # chained selection: all scenarios, and EVERY pattern of <= 4 events over {c1=T, c1=F, c2=inner, c2=C, A ticks, B ticks}
     # after a fixed prefix that makes all three targets valid
     for shape in (0, 1, 2):
@@ -359,8 +398,8 @@ def parse_case(case):
             op = l[4] if len(l) > 4 else 0
     if shape not in (1, 2):
         shape = 0
-    op = op if op in (1, 3, 4, 5, 6, 7) else 0
-    wired = {0, 1, 2, 7} | ({3} if op in (1, 6, 7) else set()) | ({4} if op in (6, 7) else set())
+    op = op if op in (1, 3, 4, 5, 6, 7, 8) else 0
+    wired = {0, 1, 2, 7} | ({3} if op in (1, 6, 7, 8) else set()) | ({4} if op in (6, 7) else set())
     script = {}
     for l in case:
         if l and l[0] == 2 and len(l) >= 4 and 0 <= l[1] < 8:
@@ -372,7 +411,7 @@ def parse_case(case):
 
 
 def sel_of(op, v):
-    if op == 1:
+    if op in (1, 8):
         return A if v <= 0 else (B if v == 1 else C)
     return A if v != 0 else B
 
@@ -692,6 +731,10 @@ def _events(case):
             res["unselected_ticks"] += 1
         if 7 in ev:
             res["pokes"] += 1
+    hdr = [l for l in case if l and l[0] == 1 and len(l) >= 3]
+    if op == 8 or (hdr and len(hdr[-1]) > 5 and hdr[-1][5] == 1):
+        res["sibling_targets"] = 1
+        res["sibling_retargets"] = res["retargets"]
     res["shape_%d" % shape] = 1
     res["op_%d" % op] = 1
     return res
